@@ -235,3 +235,112 @@ func thoroughCorpus(def *propertyDef, r *Report, repo, verif string, st *runStat
 	r.Rule("G.control", "positive controls: each seeded variant (one instance broken in a scratch copy of the current tree) must be reported by its expected rule; a miss marks the rule dead", 0)
 	runCorpus(def, r, repo, verif, st, false)
 }
+
+// ---- negative controls: behaviour-preserving refactorings must stay silent ----
+
+type benignEntry struct {
+	ID      string   `json:"id"`
+	Focus   []string `json:"focus"`
+	Summary string   `json:"summary"`
+	Silent  bool     `json:"silent"`           // all 20 checks were silent on it when the index was made
+	Alarms  []string `json:"alarms,omitempty"` // properties whose check alarmed (known limit, see DESIGN 10.6)
+}
+
+// runBenign applies every behaviour-preserving refactoring of /verif/benign that was made with this property in
+// focus (and is recorded as silent) to a scratch copy of the current tree and requires the property's rules to
+// stay silent on it. A patch that no longer applies is skipped.
+func runBenign(def *propertyDef, r *Report, repo, verif string, st *runStats) {
+	b, err := os.ReadFile(filepath.Join(verif, "benign", "INDEX.json"))
+	if err != nil {
+		return
+	}
+	var es []benignEntry
+	if json.Unmarshal(b, &es) != nil {
+		return
+	}
+	r.Rule("G.benign", "negative controls: the behaviour-preserving refactorings of /verif/benign written with this property in focus (independent sub-agents; build, vet and the 66 tests pass with each) are applied one at a time to a scratch copy of the current tree; the property's rules must raise nothing on them", 0)
+	// if the current tree itself is not clean for this property, the controls say nothing
+	known0, _ := loadKnownFindings(filepath.Join(verif, "KNOWN_FINDINGS.txt"))
+	for _, o := range r.Obligs {
+		if o.Verdict == Discharged || o.Config != "" || strings.HasPrefix(o.Rule, "G.") {
+			continue
+		}
+		isKnown := false
+		for _, k := range known0 {
+			if k.Property == def.ID && k.Rule == o.Rule && k.Key == o.Key {
+				isKnown = true
+			}
+		}
+		if !isKnown {
+			r.Notes = append(r.Notes, "negative controls skipped: the current tree already raises "+o.Rule)
+			return
+		}
+	}
+	for _, e := range es {
+		rel := false
+		for _, p := range e.Focus {
+			if p == def.ID {
+				rel = true
+			}
+		}
+		if !rel || !e.Silent {
+			continue
+		}
+		scratch, err := os.MkdirTemp("", "wtcheck-benign-")
+		if err != nil {
+			continue
+		}
+		func() {
+			defer os.RemoveAll(scratch)
+			if err := copyTree(repo, scratch); err != nil {
+				return
+			}
+			cmd := exec.Command("git", "apply", "--whitespace=nowarn", filepath.Join(verif, "benign", e.ID, "patch.diff"))
+			cmd.Dir = scratch
+			cmd.Env = append(os.Environ(), "GIT_CEILING_DIRECTORIES="+filepath.Dir(scratch))
+			if _, err := cmd.CombinedOutput(); err != nil {
+				r.Notes = append(r.Notes, "benign "+e.ID+": skipped, the patch no longer applies to the current tree")
+				return
+			}
+			w, err := loadWorld(LoadConfig{Dir: scratch})
+			if err != nil {
+				r.Notes = append(r.Notes, "benign "+e.ID+": skipped, does not load: "+err.Error())
+				return
+			}
+			sub := newReport(def.ID, "quick")
+			ruleG0(w, sub)
+			func() {
+				defer func() {
+					if p := recover(); p != nil {
+						sub.Undecided("G.panic", "analyser", "-", fmt.Sprint(p))
+					}
+				}()
+				def.Run(w, sub)
+			}()
+			sub.checkFloors()
+			known, _ := loadKnownFindings(filepath.Join(verif, "KNOWN_FINDINGS.txt"))
+			var bad []string
+			for _, o := range sub.Obligs {
+				if o.Verdict == Discharged {
+					continue
+				}
+				isKnown := false
+				for _, k := range known {
+					if k.Property == def.ID && k.Rule == o.Rule && k.Key == o.Key {
+						isKnown = true
+					}
+				}
+				if !isKnown {
+					bad = append(bad, o.Rule+" ["+o.Key+"] "+o.Detail)
+				}
+			}
+			st.Corpus = append(st.Corpus, map[string]interface{}{"id": "benign/" + e.ID, "note": e.Summary, "status": map[bool]string{true: "silent", false: "ALARM"}[len(bad) == 0]})
+			if len(bad) == 0 {
+				r.OK("G.benign", "benign:"+e.ID, "-", "silent on the behaviour-preserving refactoring ("+e.Summary+")")
+			} else {
+				sort.Strings(bad)
+				r.Undecided("G.benign", "benign:"+e.ID, "-", "FALSE ALARM of this checker on a behaviour-preserving refactoring ("+e.Summary+"): "+bad[0])
+			}
+		}()
+	}
+}
